@@ -200,13 +200,4 @@ theorem set_bit_eval (T : CTy) (hT : SetTy T) (v n : Nat) (b : Bool) (hv : v < 2
     show ("bits" = "n") = False from by decide, show ("bits" = "b") = False from by decide,
     show ("n" = "b") = False from by decide, conv_back T hT _ hr, Option.map]
 
-/-- replay a sequence of setter calls `(choice, value)` through the extracted
-    setter kernel (used by the history theorems of C15 and by the driver) -/
-def runSets (T : CTy) : Nat → List (Nat × Bool) → Option Nat
-  | v, [] => some v
-  | v, (n, b) :: ops =>
-    match (Extracted.bitset_set_bit T).varBits [v, n, if b then 1 else 0] "bits" with
-    | some r => runSets T r ops
-    | none => none
-
 end Sbepp
